@@ -1287,11 +1287,11 @@ def shrink(ast, still_fails, max_rounds=30, max_tests=400):
 LIST_WEIGHTS = dict(
     n_lists=(2, 3), n_items=(2, 4), n_lvars=(2, 4), lv_empty=0.55, list_density=0.5, list_funcs=0.7,
     list_temps=0.25,
-    # forms that make two variables / a variable and a program literal share one (mutable) empty list value
-    # (finding c17-empty-list-value-shared: origin names written through one holder show through the others,
-    # and survive reset_state): bare variable on the right of a list assignment, `~ temp t = ()` declarations
-    # that can be executed twice in one frame, functions returning a bare variable / literal
-    list_alias=0.0,
+    # forms that make two variables / a variable and a program literal hold one empty list value: bare variable
+    # on the right of a list assignment, `~ temp t = ()` declarations that can be executed twice in one frame,
+    # functions returning a bare variable / literal.  (Before the repair abbdf69 the retained origin names were
+    # written into that shared value: they showed through the other holders and survived reset_state.)
+    list_alias=0.25,
 )
 
 
